@@ -2,6 +2,7 @@ package props
 
 import (
 	"fmt"
+	"math"
 	"math/big"
 	"strconv"
 	"strings"
@@ -186,8 +187,13 @@ func genC12(t *rapid.T) C12Case {
 			mant = rapid.SampledFrom([]string{"1", "0.5", "123.456", "9", ".1", "1000000000000000000000000000000"}).Draw(t, "nzm")
 		}
 		letter := "e"
-		if zero && rapid.IntRange(0, 2).Draw(t, "pletter") == 0 {
+		if rapid.IntRange(0, 2).Draw(t, "pletter") == 0 {
 			letter = "p"
+			if !zero {
+				// binary exponents far outside, just outside and inside the int32 range
+				field = rapid.SampledFrom([]string{"7200000000", "-8000000000", "-7133786264", "7133786265", "4294967296", "-4294967296", "2147483747", "-2147483747", "2147483000", "-2147483000",
+					"1000000000", "-1000000000", "-9223372036854775808", "9223372036854775807", "-9223372036854775805", "99999999999999999999", "12345678901"}).Draw(t, "pfield")
+			}
 		}
 		sign := rapid.SampledFrom([]string{"", "-", "+"}).Draw(t, "esign")
 		c.S = sign + mant + letter + field
@@ -387,6 +393,31 @@ func checkC12(c C12Case, o *h.Obs) *h.Fail {
 			if got.Form != model.Zero || got.Neg != strings.HasPrefix(mant, "-") {
 				return h.Failf("value", "%s(%q) = %v", c.Entry, c.S, got.Val())
 			}
+		case c.S[i] == 'p':
+			// a binary exponent outside the int32 range is rejected (as math/big does); inside it (with a margin for the
+			// mantissa's own magnitude) the literal is accepted and the value has the right order of magnitude
+			f64 := float64(fv.Int64())
+			switch {
+			case f64 > math.MaxInt32+100 || f64 < math.MinInt32-100:
+				o.Label("expfield:p-beyond-int32")
+				if err == nil {
+					return h.Failf("acceptance", "%s(%q): binary exponent outside the int32 range accepted as %v", c.Entry, c.S, got.Val())
+				}
+			case f64 < math.MaxInt32-100 && f64 > math.MinInt32+100:
+				o.Label("expfield:p-inside-int32")
+				if err != nil {
+					return h.Failf("acceptance", "%s(%q, %d): rejected: %v", c.Entry, c.S, c.Base, err)
+				}
+				mv, _, perr := new(big.Float).SetPrec(200).Parse(strings.TrimLeft(mant, "+-"), 10)
+				if perr != nil {
+					return h.Failf("bad-case", "mantissa %q: %v", mant, perr)
+				}
+				m64, _ := mv.Float64()
+				wantExp := f64*(math.Ln2/math.Ln10) + math.Log10(m64) // log10 of the value
+				if got.Form != model.Finite || math.Abs(float64(got.Exp)-1-wantExp) > 2 || got.Neg != strings.HasPrefix(mant, "-") {
+					return h.Failf("value", "%s(%q) = %v, a value of about 10^%.1f expected", c.Entry, c.S, got.Val(), wantExp)
+				}
+			}
 		default:
 			// base-10 literal with an 'e' exponent: in range iff the scaled exponent fits
 			mv, _, perr := new(big.Float).SetPrec(200).Parse(strings.TrimLeft(mant, "+-"), 10)
@@ -527,7 +558,7 @@ func checkC12Mixed(c C12Case, o *h.Obs, got h.Snap, err error, wantPrec uint) *h
 	return nil
 }
 
-const ruleC12 = "rapid-generated inputs of three kinds. (dec) base-10 literals of the documented grammar with the value known by construction: sign, digits split around the point anywhere, leading/trailing zeros, '_' separators in legal positions, e/E exponents over the whole int32 range and beyond, up to 600 (quick) / 3000 (thorough) digits with rounding patterns; through Parse, SetString, ParseDecimal, UnmarshalText and Scan (fmt.Sscan with surrounding blanks); receiver precision 0 or 1..80, six modes. Oracle: literal's exact value rounded once (value, accuracy, precision 34 if it was 0, base 10); scaled exponent outside int32 => error. (any) literals in base 2/8/16 or with p exponents, one- and two-character mutations of valid literals (deleted/inserted/replaced/duplicated characters, misplaced '_'), short strings over the alphabet of number characters, a list of hostile constants: acceptance and detected base must coincide with math/big Float.Parse (compared when the exponent field is <= 10000 in magnitude), the value must be exact when its decimal expansion fits the precision and within 1 ulp of the correctly rounded value otherwise (exact rational taken from math/big at a precision that makes it exact). (mixed) binary/octal mantissas with fractional digits and a decimal e exponent over the whole int32 range and at its ends: value = exact binary mantissa (math/big) x 10^e with the range rule (underflow to a signed zero, overflow to infinity), exact when representable, 1 ulp otherwise; rejection accepted only within 80 of a range end. (expfield) short mantissas with exponent fields at the edges of int64 and int32 (+-2^63, +-(2^63-1), -2^63-1, 2^64, +-2^32, +-2^31, twenty nines, zero-padded fields): a field that does not fit an int64 must be rejected, a zero mantissa with a valid field (e or p) is a signed zero, a non-zero base-10 literal is accepted exactly when its scaled exponent lies in the int32 range. Always: no panic, err != nil => returned *Decimal is nil, receiver canonical. Non-trivial = an accepted literal that needs rounding, or a rejected string; distinct by case."
+const ruleC12 = "rapid-generated inputs of three kinds. (dec) base-10 literals of the documented grammar with the value known by construction: sign, digits split around the point anywhere, leading/trailing zeros, '_' separators in legal positions, e/E exponents over the whole int32 range and beyond, up to 600 (quick) / 3000 (thorough) digits with rounding patterns; through Parse, SetString, ParseDecimal, UnmarshalText and Scan (fmt.Sscan with surrounding blanks); receiver precision 0 or 1..80, six modes. Oracle: literal's exact value rounded once (value, accuracy, precision 34 if it was 0, base 10); scaled exponent outside int32 => error. (any) literals in base 2/8/16 or with p exponents, one- and two-character mutations of valid literals (deleted/inserted/replaced/duplicated characters, misplaced '_'), short strings over the alphabet of number characters, a list of hostile constants: acceptance and detected base must coincide with math/big Float.Parse (compared when the exponent field is <= 10000 in magnitude), the value must be exact when its decimal expansion fits the precision and within 1 ulp of the correctly rounded value otherwise (exact rational taken from math/big at a precision that makes it exact). (mixed) binary/octal mantissas with fractional digits and a decimal e exponent over the whole int32 range and at its ends: value = exact binary mantissa (math/big) x 10^e with the range rule (underflow to a signed zero, overflow to infinity), exact when representable, 1 ulp otherwise; rejection accepted only within 80 of a range end. (expfield) short mantissas with exponent fields at the edges of int64 and int32 (+-2^63, +-(2^63-1), -2^63-1, 2^64, +-2^32, +-2^31, twenty nines, zero-padded fields): a field that does not fit an int64 must be rejected, a zero mantissa with a valid field (e or p) is a signed zero, a non-zero base-10 literal is accepted exactly when its scaled exponent lies in the int32 range; a non-zero mantissa with a p exponent is rejected when the exponent lies outside the int32 range (as math/big does) and otherwise accepted with a value of the right order of magnitude (fields from -2^63 to 2^63-1, +-7.2e9, +-2^32, +-(2^31+100), +-2147483000, +-10^9). Always: no panic, err != nil => returned *Decimal is nil, receiver canonical. Non-trivial = an accepted literal that needs rounding, or a rejected string; distinct by case."
 
 var propC12 = &h.Prop[C12Case]{ID: "C12", Rule: ruleC12, Gen: genC12, Check: checkC12, Matchers: map[string]func(C12Case) bool{}}
 
